@@ -21,30 +21,28 @@ def parse(text):
     return d, set(x for x in ch.split(",") if x)
 
 
-class Rig:
-    """an initialised real API object whose sends are captured as message objects"""
+def frame_of(api, message):
+    """the bytes the real send path writes for `message` (same calls as AirTouchSocket._drain_message_queue)"""
+    reg = api.reg
+    enc = reg.get_encoder(message.message_id)
+    hdr = reg.header_factory.create_from_message(message, enc.size(message))
+    eh = reg.header_encoder.encode(hdr)
+    mb = enc.encode(hdr, message)
+    crc = reg.checksum_calculator.calculate(eh.checksum_data + mb)
+    return bytes(eh.header_bytes), bytes(mb), bytes(crc), hdr
 
-    def __init__(self, gen, ac_count, zones, sensors, turbo, limits):
-        import apigen_min
-        self.gen = gen
-        self.api = apiharness.Api(gen)
-        self.sent = []
-        orig = self.api.sock.send
 
-        async def send(message, retry_policy):
-            self.sent.append((message, retry_policy))
-            await orig(message, retry_policy)
-        self.api.sock.send = send
-        self.ops = apigen_min.handshake(gen, ac_count, zones, sensors, turbo, limits)
-
-    def frame(self, message):
-        reg = self.api.reg
-        enc = reg.get_encoder(message.message_id)
-        hdr = reg.header_factory.create_from_message(message, enc.size(message))
-        eh = reg.header_encoder.encode(hdr)
-        mb = enc.encode(hdr, message)
-        crc = reg.checksum_calculator.calculate(eh.checksum_data + mb)
-        return bytes(eh.header_bytes), bytes(mb), bytes(crc), hdr
+def limits(gen, ac):
+    """[min, max] in force, from the installation description: AT4 one pair; AT5 the pair of the current mode"""
+    if gen == 4:
+        return ac["lo"], ac["hi"]
+    lo_h, hi_h = ac.get("lo_heat", ac["lo"]), ac.get("hi_heat", ac["hi"])
+    mode = ac.get("mode", 4)
+    if mode == 1:
+        return lo_h, hi_h
+    if mode == 4:
+        return ac["lo"], ac["hi"]
+    return min(lo_h, ac["lo"]), max(hi_h, ac["hi"])
 
 
 def intended(gen, target, method, args, state):
@@ -107,118 +105,149 @@ def intended(gen, target, method, args, state):
 
 
 def run(ctx, deep=False):
-    import apigen_min
+    import consolesim
+    import pyairtouch.api as A
     thorough = deep or ctx.tier == "thorough"
     ctx.coverage["rule"] = (
-        "real AirTouch4 / AirTouch5 objects initialised against a scripted console (AC numbers 0..3 / 0..15 sampled incl. both ends, "
-        "zone numbers 0..15, several ability records incl. all-modes / all-speeds and restricted ones, min/max limits); every public "
-        "control call with every enum argument, AC temperatures on a 0.05 degC grid from -10 to 60 (quick: 0.35 grid + all x.5 / x.x5 "
-        "ties near the limits), zone temperatures over the documented range, damper 0..100; each accepted call's message is framed by "
-        "the real send path and read by the independent vendor reader: addressed entity, exactly the requested attribute changed to "
-        "exactly the requested value, every other attribute keep, to-address 0x80 (0x90 for 0x1F), from 0xB0, check bytes = "
-        "CRC-16/MODBUS of address..payload. distinct = distinct (generation, entity, call, arguments)")
-    import pyairtouch.api as A
+        "real AirTouch4 / AirTouch5 objects initialised against a scripted console (AC numbers at both ends of 0..3 / 0..15, "
+        "zone numbers 0..15, full and restricted ability records, per-mode limits); every public control call with every enum "
+        "argument, AC temperatures on a 0.05 degC grid from -10 to 60 (quick: 0.35 grid plus ties near the limits), zone temperatures, "
+        "dampers -5..105; each accepted call's message is framed by the real send path (header factory, wrappers, encoder, CRC) and "
+        "read by the independent vendor reader: addressed entity, exactly the requested attribute changed to exactly the requested "
+        "value, every other attribute keep, to-address 0x80 (0x90 for 0x1F), from 0xB0, check bytes = CRC-16/MODBUS of address..payload. "
+        "distinct = distinct (generation, installation, entity, call, arguments)")
     step = 0.05 if thorough else 0.35
     temps = []
     x = -10.0
     while x <= 60.0001:
         temps.append(round(x, 2))
         x += step
-    temps += [15.5, 16.5, 29.5, 30.5, 15.95, 16.05, 30.05, 29.95, 22.25, 22.35, 22.45]
-    spec_lines, frame_lines, metas = [], [], []
+    temps += [15.5, 16.5, 29.5, 30.5, 15.95, 16.05, 30.05, 29.95, 22.25, 22.35, 22.45, 17.5, 18.5, 24.5, 25.5, 27.5, 28.5]
+    spec_lines, metas = [], []
     for gen in (4, 5):
-        configs = apigen_min.configs(gen, thorough)
-        for cfg in configs:
-            rig = Rig(gen, **cfg)
+        for ci, inst in enumerate(consolesim.installs(gen, thorough)):
             calls = []
-            for ac in range(cfg["ac_count"]):
-                acid = apigen_min.ac_ids(gen, cfg)[ac]
-                st = {"id": acid, "min": cfg["limits"][0], "max": cfg["limits"][1]}
+            for k, ac in enumerate(inst["acs"]):
+                lo, hi = limits(gen, ac)
+                st = {"id": ac["id"], "min": lo, "max": hi}
                 for p in A.AcPowerControl:
-                    calls.append(("ac", acid, "set_power", [p.name], st))
+                    calls.append(("ac", ac["id"], "set_power", [p.name], st))
                 for m in A.AcMode:
                     for po in ("0", "1"):
-                        calls.append(("ac", acid, "set_mode", [m.name, po], st))
+                        calls.append(("ac", ac["id"], "set_mode", [m.name, po], st))
                 for f in A.AcFanSpeed:
-                    calls.append(("ac", acid, "set_fan_speed", [f.name], st))
-                for t in (temps if ac == 0 else temps[::7]):
-                    calls.append(("ac", acid, "set_target_temperature", [repr(t)], st))
-            for z in cfg["zones"]:
+                    calls.append(("ac", ac["id"], "set_fan_speed", [f.name], st))
+                for t in (temps if k == 0 else temps[::7]):
+                    calls.append(("ac", ac["id"], "set_target_temperature", [repr(t)], st))
+                for tt in A.AcTimerType:
+                    calls.append(("ac", ac["id"], "set_quick_timer", [tt.name, "duration", "5400"], st))
+                    calls.append(("ac", ac["id"], "clear_quick_timer", [tt.name], st))
+            first = True
+            for z in sorted(inst["zones"]):
                 st = {"id": z}
                 for p in A.ZonePowerState:
                     calls.append(("zone", z, "set_power", [p.name], st))
-                for d in (range(0, 101) if z == cfg["zones"][0] else (0, 1, 50, 99, 100)):
+                for d in (range(-5, 106) if first else (0, 1, 50, 99, 100)):
                     calls.append(("zone", z, "set_damper_percentage", [str(d)], st))
-                zt = [t for t in temps if (10.0 <= t <= 35.0 if gen == 5 else 0.0 <= t <= 40.0)]
-                for t in (zt if z == cfg["zones"][0] else zt[::9]):
+                zt = [t for t in temps if 0.0 <= t <= 40.0]
+                for t in (zt if first else zt[::9]):
                     calls.append(("zone", z, "set_target_temperature", [repr(t)], st))
-            ops = list(rig.ops)
-            marks = []
+                first = False
+            calls.append(("at", 0, "check_for_updates", [], {}))
+            ops = consolesim.handshake(gen, inst)
+            base = len(ops)
             for (target, ident, method, args, st) in calls:
-                marks.append(len(ops))
-                ops.append("call %s %d %s %s" % (target, ident, method, " ".join(args)))
+                ops.append(("call at check_for_updates" if target == "at" else "call %s %d %s %s" % (target, ident, method, " ".join(args))).strip())
+            api = apiharness.Api(gen)
             with warnings.catch_warnings():
                 warnings.simplefilter("ignore")
-                n_before = []
-                results = None
-                # run op by op to know which messages each call sent
-                api = rig.api
-                out = api.run_collect(ops, rig.sent)
-            for (target, ident, method, args, st), idx in zip(calls, marks):
-                res, sent = out[idx]
-                ctx.case((gen, target, ident, method, tuple(args), json.dumps(cfg, sort_keys=True)))
-                ctx.count("%d:%s.%s:%s" % (gen, target, method, "sent" if sent else (res or "nothing")))
+                out = api.run(ops)
+            if not any("RESULT init True" in x for o in out[:base] for x in o):
+                ctx.tie_broken("C04:console-script", "the scripted console no longer initialises the AirTouch %d object (installation %d): %s" % (gen, ci, out[:base]))
+                continue
+            for j, (target, ident, method, args, st) in enumerate(calls):
+                res = [x for x in out[base + j] if x.startswith("RESULT")]
+                sent = api.op_sent[base + j]
+                ctx.case((gen, ci, target, ident, method, tuple(args)))
+                ctx.count("%d:%s.%s:%s" % (gen, target, method, "sent" if sent else (res[0] if res else "nothing")))
                 if not sent:
                     continue
                 if len(sent) != 1:
-                    ctx.violation("C04:frames-per-call", "%s %s.%s%s transmitted %d frames" % (gen, target, method, args, len(sent)), kind="input",
-                                  call=[gen, target, ident, method, args], implementation_output=len(sent), spec_verdict="exactly one frame")
+                    ctx.violation("C04:%d:frames-per-call" % gen, "AirTouch %d %s.%s%s transmitted %d frames" % (gen, target, method, args, len(sent)), kind="input",
+                                  call=[gen, ci, target, ident, method, args], implementation_output=len(sent), spec_verdict="exactly one frame")
                     continue
-                msg = sent[0][0]
                 try:
-                    hb, mb, crc, hdr = rig.frame(msg)
-                except Exception as e:  # noqa: BLE001  (unencodable: nothing reaches the wire)
+                    hb, mb, crc, hdr = frame_of(api, sent[0][0])
+                except Exception as e:  # noqa: BLE001  (unencodable: the socket logs it and nothing reaches the wire)
                     ctx.count("%d:%s.%s:unencodable:%s" % (gen, target, method, type(e).__name__))
                     continue
-                kind, exp, ch = intended(gen, target, method, args, st)
-                spec_lines.append("spec %d %s %s" % (gen, kind, mb.hex()))
-                inner = (hb + mb + crc) if gen == 4 else (hb + mb + crc)[10:]
-                frame_lines.append("specframe %d %s" % (gen, inner.hex()))
-                metas.append((gen, target, ident, method, args, exp, ch, hdr, (hb + mb + crc).hex()))
+                if target == "at" or "quick_timer" in method:
+                    kind, exp, ch = None, {}, set()
+                else:
+                    kind, exp, ch = intended(gen, target, method, args, st)
+                fr = hb + mb + crc
+                if kind:
+                    spec_lines.append("spec %d %s %s" % (gen, kind, mb.hex()))
+                else:
+                    spec_lines.append("crc -")
+                metas.append((gen, ci, target, ident, method, args, exp, ch, hdr, fr, kind))
     spec = ctx.oracle(spec_lines) if spec_lines else []
-    frames = ctx.oracle(frame_lines) if frame_lines else []
+    crc_lines = []
+    for m in metas:
+        fr = m[9]
+        covered = fr[2:-2] if m[0] == 4 else fr[14:-2]
+        crc_lines.append("crc %s" % (covered.hex() or "-"))
+    crcs = ctx.oracle(crc_lines) if crc_lines else []
     worst = {}
-    for (gen, target, ident, method, args, exp, ch, hdr, fr), s, f in zip(metas, spec, frames):
+    for (gen, ci, target, ident, method, args, exp, ch, hdr, fr, kind), s, c in zip(metas, spec, crcs):
         why = None
-        if s in ("none", "bad-op"):
-            why = "the vendor reader does not accept the payload as a %s control message" % target
-        else:
-            got, gch = parse(s)
-            for k, v in exp.items():
-                if got.get(k) != v:
-                    why = "%s: frame says %s=%s, the call intends %s" % (k, k, got.get(k), v)
-                    break
-            if why is None and gch != ch:
-                why = "attributes changed by the frame %s, intended %s" % (sorted(gch), sorted(ch))
+        if kind:
+            if s in ("none", "bad-op") or s.startswith("error"):
+                why = "the vendor reader does not accept the payload as a %s control message (%s)" % (target, s[:60])
+            else:
+                got, gch = parse(s)
+                if (gen == 5 and target == "zone" and method == "set_target_temperature"
+                        and not 10.0 <= round(float(args[0]), 1) <= 35.0 and not gch):
+                    # outside the range the AirTouch 5 zone set-point byte can express (10.0 .. 35.0 degC): not an admissible
+                    # argument; the frame must then change nothing at all (the vendor reading of an invalid value is "keep")
+                    exp = {}
+                for k, v in exp.items():
+                    if got.get(k) != v:
+                        why = "%s: the frame says %s, the call intends %s" % (k, got.get(k), v)
+                        break
+                if why is None and exp and gch != ch:
+                    why = "attributes changed by the frame %s, intended %s" % (sorted(gch), sorted(ch))
         if why is None:
-            fd, _ = parse(f)
-            want_to = "90" if hdr.message_id == 0x1F else "80"
-            if f in ("none", "bad-op"):
-                why = "the vendor frame reader rejects the frame"
-            elif fd.get("check_ok") not in ("true", None) or (fd.get("check_ok") is None and "check" not in f):
-                why = "check bytes are not CRC-16/MODBUS of address..payload"
-            elif hdr.to_address != int(want_to, 16) or hdr.from_address != 0xB0:
-                why = "addressed to 0x%02x from 0x%02x" % (hdr.to_address, hdr.from_address)
+            prefix = bytes([0x55, 0x55]) if gen == 4 else bytes([0x55, 0x55, 0x55, 0xAA])
+            want_to = 0x90 if hdr.message_id == 0x1F else 0x80
+            outer = b""
+            if gen == 5:
+                # the undocumented outer header of AirTouch 5 frames (reverse-engineered upstream): 55 55 55 ab, two zero
+                # bytes, the inner frame's length twice; only its consistency with the inner frame is judged
+                outer, fr = fr[:10], fr[10:]
+            n = len(prefix)
+            if gen == 5 and outer != bytes([0x55, 0x55, 0x55, 0xAB, 0, 0, len(fr) >> 8, len(fr) & 255, len(fr) >> 8, len(fr) & 255]):
+                why = "outer header %s does not announce the inner frame of %d bytes" % (outer.hex(), len(fr))
+            elif fr[:n] != prefix:
+                why = "frame does not start with the documented prefix"
+            elif fr[n] != want_to or fr[n + 1] != 0xB0:
+                why = "addressed to 0x%02x from 0x%02x (documented: to 0x%02x from 0xb0)" % (fr[n], fr[n + 1], want_to)
+            elif fr[-2:].hex() != c.strip().replace(" ", "").lower()[-4:]:
+                why = "check bytes %s are not CRC-16/MODBUS of address..payload (%s)" % (fr[-2:].hex(), c)
+            else:
+                ln = (fr[n + 4] << 8 | fr[n + 5])
+                if ln != len(fr) - n - 6 - 2:
+                    why = "length field %d but %d payload bytes" % (ln, len(fr) - n - 8)
         if why:
             key = "C04:%d:%s.%s" % (gen, target, method)
             if key not in worst:
-                worst[key] = (gen, target, ident, method, args, why, fr, s)
-    for key, (gen, target, ident, method, args, why, fr, s) in worst.items():
+                worst[key] = (gen, ci, target, ident, method, args, why, fr.hex(), s)
+    for key, (gen, ci, target, ident, method, args, why, fr, s) in worst.items():
         ctx.violation(key, "AirTouch %d %s %d %s(%s): %s (frame %s; vendor reading: %s)" % (gen, target, ident, method, ", ".join(args), why, fr, s[:300]),
-                      kind="input", call=[gen, target, ident, method, args], implementation_output=fr, spec_verdict=why)
+                      kind="input", call=[gen, ci, target, ident, method, args], implementation_output=fr, spec_verdict=why)
     if metas:
-        ctx.sample({"call": list(metas[0][:5]), "frame": metas[0][8], "vendor_reading": spec[0][:200]})
-    ctx.assumptions += ["quick-timer and AC-timer control messages are not in the vendor documents (reverse-engineered upstream): only their addressing and check bytes are judged",
+        ctx.sample({"call": [str(x) for x in metas[0][:6]], "frame": metas[0][9].hex(), "vendor_reading": spec[0][:200]})
+    ctx.assumptions += ["quick-timer control messages are not in the vendor documents (reverse-engineered upstream): only their addressing, length and check bytes are judged here; their content is covered by C11/C03",
                         "Python's round() is used as is by the intended-meaning computation (same interpreter)"]
 
 
